@@ -19,6 +19,9 @@ SCHEMES = {
 
 
 def content(c):
+    # content id 2 is the empty file: its SHA-256 differs from the "" recorded for a missing file
+    if c == 2:
+        return ""
     return ("content %d\n" % c) * 30
 
 
@@ -38,7 +41,7 @@ class RepoSim:
         self.id2path = {i: self.names[i] for i in ids}
         self.path2id = {v: k for k, v in self.id2path.items()}
         self.sum2c = {"": 0}
-        for c in range(1, 40):
+        for c in range(1, 60):
             self.sum2c[sha(c)] = c
         for t in (tA, tB):
             with open(os.path.join(fx.repo, t, "keep.txt"), "w") as f:
@@ -245,6 +248,66 @@ def random_actions(rng, ids, ignored, n, maxc=30):
     return acts
 
 
+def bulk_behaviour(bins, beh, n, rng):
+    """Independent driver for large change sets: n files with fixed-length names (every name + NUL is 16 bytes, so
+    records end exactly on 4096-byte boundaries of git's output), first untracked, then committed after an older
+    checkpoint, then filtered by a pending map; more than 100 changes cross analyze's batch boundaries."""
+    ids = ["af"]
+    sim = RepoSim(bins, "plain", ids, [], beh, with_run=False)
+    try:
+        fx = sim.fx
+        names = []
+        for i in range(n):
+            t = "a" if i % 3 else "b"
+            nm = "%s/%s%011d" % (t, "bk"[i % 2], i)          # 1 + 1 + 1 + 11 = 14... padded below to 15 bytes
+            nm = nm + "x"
+            names.append(nm)
+        # the trace needs every path declared at reset: rebuild the reset event
+        for nm in names:
+            sim.id2path[nm] = nm
+            sim.path2id[nm] = nm
+        sim.events[0]["paths"] += [{"id": nm, "comp": runlib.P(nm)} for nm in names]
+        sim.events[0]["init"] += [[nm, 0] for nm in names]
+        sim.ids = ids + names
+        for nm in names:
+            sim.wt[nm] = 0; sim.idx[nm] = 0
+        sim.act({"a": "cp_update", "id": 0, "pending": False})
+        sim.analyze()
+        fresh = 40
+        for k, nm in enumerate(names):
+            c = 3 + (k % 30)
+            with open(os.path.join(fx.repo, nm), "w") as f:
+                f.write(content(c))
+            sim.wt[nm] = c
+            sim.events.append({"ev": "write", "p": nm, "c": c})
+        sim.analyze()                       # all untracked
+        sim.act({"a": "stage_all"})
+        sim.analyze()
+        sim.act({"a": "commit"})
+        sim.analyze()                       # committed since the checkpoint
+        sim.analyze(1, 2)                   # explicit begin / end
+        sim.act({"a": "cp_update", "id": 1, "pending": False})
+        # touch a subset, record them as pending, touch a few again
+        sub = rng.sample(names, min(len(names), 130))
+        for nm in sub:
+            with open(os.path.join(fx.repo, nm), "w") as f:
+                f.write(content(35))
+            sim.wt[nm] = 35
+            sim.events.append({"ev": "write", "p": nm, "c": 35})
+        sim.analyze()
+        sim.act({"a": "cp_update", "id": 1, "pending": True})
+        sim.analyze()
+        for nm in sub[:7]:
+            with open(os.path.join(fx.repo, nm), "w") as f:
+                f.write(content(36))
+            sim.wt[nm] = 36
+            sim.events.append({"ev": "write", "p": nm, "c": 36})
+        sim.analyze()
+        return sim.events
+    finally:
+        sim.close()
+
+
 def mc_cfg(paths, ignored, maxc, maxcommits, emit_depth, keep_stale=False, props=True):
     return ("CONSTANTS Paths = {%s}\n Ignored = {%s}\n MaxC = %d\n MaxCommits = %d\n EmitDepth = %d\n KeepStalePending = %s\n"
             "SPECIFICATION Spec\n%sINVARIANTS TypeOK GitMatchesSpec FixpointC07 Emit\n%sCHECK_DEADLOCK FALSE\n") % (
@@ -286,8 +349,14 @@ def run(pid, tier):
         ids = ["af", "ag", "ah", "bf", "bg", "bi"]
         jobs.append((len(behs) + j, random_actions(random.Random(chk.seed * 1000 + j), ids, ["bi"], rng.randint(20, 45)),
                      schemes[j % len(schemes)], ids, ["bi"]))
+    # bulk change sets (sizes around analyze's batch size and git output buffer boundaries)
+    bulk_sizes = [120, 701] if tier == "quick" else [49, 50, 51, 100, 101, 120, 256, 300, 512, 701, 1024]
+    for b, n in enumerate(bulk_sizes):
+        jobs.append((len(jobs), None, "bulk", n, None))
     def one(job):
         i, acts, scheme, ids, ign = job
+        if scheme == "bulk":
+            return bulk_behaviour(bins, i, ids, random.Random(chk.seed * 7919 + i))
         return replay_behaviour(bins, i, acts, scheme, ids, ign, random.Random(chk.seed * 7919 + i))
     with ThreadPoolExecutor(max_workers=12) as ex:
         traces = list(ex.map(one, jobs))
